@@ -1173,11 +1173,30 @@ def cox_list():
     return _COX
 
 
+def ri_cosine(m):
+    """cosine matrix of a Coxeter matrix (0 = infinite label -> -1), numpy only."""
+    m = np.asarray(m)
+    B = np.eye(len(m))
+    for i in range(len(m)):
+        for j in range(len(m)):
+            if i != j:
+                B[i, j] = -1.0 if m[i, j] == 0 else -math.cos(math.pi / m[i, j])
+    return B
+
+
 def wl_coxeter(run, rng, idx):
     from geometry_tools import coxeter
     from geometry_tools.hyperbolic import HyperbolicRepresentation
     name, m = cox_list()[idx % len(cox_list())]
     route = ["hyperbolic_rep", "cartan-minkowski", "diagram"][(idx + idx // len(cox_list())) % 3]
+    inf_pairs = [(i, j) for i in range(len(m)) for j in range(i + 1, len(m)) if m[i, j] == 0]
+    if inf_pairs and idx % 2:
+        # a symmetric Cartan matrix that is NOT twice the group's cosine form: the
+        # infinite-order edges get parameters below -2 (ultraparallel mirrors).  The
+        # diagonalised representation must preserve diag(-1,1,..,1) all the same.
+        # Seeded change C02-r5-2: the group's own cosine form diagonalised instead
+        # of the Cartan matrix that was passed in.
+        route = "tits-vinberg"
     r = len(m)
     gens = "abcde"[:r]
     case = {"coxeter": name, "route": route, "matrix": m}
@@ -1186,6 +1205,26 @@ def wl_coxeter(run, rng, idx):
         diagram = [(gens[i], gens[j], int(m[i, j])) for i in range(r) for j in range(i + 1, r)]
         G = coxeter.CoxeterGroup(diagram=diagram)
         rep = G.hyperbolic_rep()                             # P
+    elif route == "tits-vinberg":
+        G = coxeter.CoxeterGroup(matrix=m.copy())
+        C = 2.0 * ri_cosine(m)
+        params = {}
+        for (i, j) in inf_pairs:
+            u = -float(rng.uniform(2.2, 5.0))
+            params[(i, j)] = u
+            C[i, j] = C[j, i] = u
+        ev = np.linalg.eigvalsh(C / 2.0)
+        if not (np.sum(ev < -1e-3) == 1 and np.sum(ev > 1e-3) == len(m) - 1):
+            route = "hyperbolic_rep"
+            rep = G.hyperbolic_rep()                         # P
+        else:
+            case["cartan_parameters"] = {"%d,%d" % k: v for k, v in params.items()}
+            if idx % 4 == 1:
+                rep = HyperbolicRepresentation(G.tits_vinberg_rep(
+                    params, diagonalize=True, order_eigenvalues="minkowski"))
+            else:
+                rep = HyperbolicRepresentation(G.cartan_representation(
+                    C.copy(), diagonalize=True, order_eigenvalues="minkowski"))
     elif route == "hyperbolic_rep":
         G = coxeter.CoxeterGroup(matrix=m.copy())
         rep = G.hyperbolic_rep()                             # P
@@ -1194,6 +1233,16 @@ def wl_coxeter(run, rng, idx):
         rep = HyperbolicRepresentation(G.cartan_representation(
             2 * G.bilinear_form(), diagonalize=True, order_eigenvalues="minkowski"))
     run.note_class("coxeter", name, route)
+    if route in ("tits-vinberg", "cartan-minkowski"):
+        # these routes do not pass through hyperbolic_rep's postcondition: the
+        # generators of the hyperbolic representation are judged here
+        mc = run.monitor("constructor-form")
+        for g in gens:
+            a = np.asarray(rep.generators[g], dtype=float)
+            mc.judge(float(ri.form_residual_both(a)), 1e-7 * max(1.0, ri.maxabs(a)) ** 2,
+                     "constructor-form/form-not-preserved/cartan_representation(diagonalize,minkowski)",
+                     "generator %r of the diagonalised Cartan representation (%s) does not preserve "
+                     "diag(-1,1,..,1)" % (g, route), dict(case, generator=g, matrix=a))
     for g in gens:
         T = rep[g]                                           # P
         if must_be_certified(run, T, "rep[g]") and g == gens[idx % r]:
